@@ -377,6 +377,7 @@ class Outcome:
         self.events = []       # (label, args)
         self.end = 'fallthrough'   # 'fallthrough' | 'break' | 'continue' | 'return' | 'raise'
         self.value = None
+        self.explicit = False      # end == 'raise': raised by a raise statement of the package
         self.loop_entered = None
 
     def called(self, label):
@@ -443,6 +444,7 @@ class Interp:
         except ExcRaised as r:
             self.out.end = 'raise'
             self.out.value = r.exc
+            self.out.explicit = getattr(r, 'explicit', False)
         return self.out
 
     def _cov(self, node, outcome):
@@ -562,7 +564,9 @@ class Interp:
             raise _Return(self.ev(s.value) if s.value is not None else None)
         elif isinstance(s, ast.Raise):
             exc = self.ev_exc(s.exc)
-            raise ExcRaised(exc)
+            r_ = ExcRaised(exc)
+            r_.explicit = getattr(s, '_module', None) is not None      # a raise statement of the package (not an exception the interpreter inferred)
+            raise r_
         elif isinstance(s, ast.Assert):
             if not self.truth(self.ev(s.test)):
                 raise ExcRaised(Ref('builtin:AssertionError'))
@@ -1585,7 +1589,9 @@ class Interp:
         out = sub.run(fnode.body)
         self.out.events.extend(out.events)
         if out.end == 'raise':
-            raise ExcRaised(out.value)
+            r_ = ExcRaised(out.value)
+            r_.explicit = out.explicit
+            raise r_
         if is_gen:
             # the generator is expanded eagerly: laziness *inside* it is not modelled
             self.out.events.append(('<eager-generator>', ()))
